@@ -308,3 +308,20 @@ Theorem C09_source_session_roundtrip : forall (m : session_meta) (ts0 ns nr p0 t
         else (true, p0, t0, i0, q0, c0, l0, x0)).
 Proof. exact xl_session_marshal_unmarshal. Qed.
 Print Assumptions C09_source_session_roundtrip.
+
+(* the same pair of codecs across two clocks (the C08 window, stated here because it depends on the codec proofs): stamped
+   by the source's Marshal at sender instant t (unix ns), read by the source's Unmarshal at receiver instant t + d, at every
+   instant of the uint32-minute era: accepted with the sender's fields if |d| <= 60 s, refused if |d| >= 120 s *)
+From M Require Import proofs.KeyTimeProofs.
+Theorem C09_source_session_timestamp_window : forall (m : session_meta) (ts0 t d p0 t0 i0 q0 c0 l0 x0 : Z),
+  session_valid m -> era t -> era (t + d) ->
+  let '(b, ts) := xl_protocol_sessionStruct_Marshal (Z.of_N (s_proto m)) ts0 (Z.of_N (s_sid m)) (Z.of_N (s_seq m))
+                    (Z.of_N (s_status m)) (Z.of_N (s_plen m)) (Z.of_N (s_slen m)) (t / NS) in
+  (Z.abs d <= 60 * NS ->
+     xl_protocol_sessionStruct_Unmarshal b p0 t0 i0 q0 c0 l0 x0 ((t + d) / NS) =
+     Some (false, Z.of_N (s_proto m), minute t, Z.of_N (s_sid m), Z.of_N (s_seq m), Z.of_N (s_status m),
+           Z.of_N (s_plen m), Z.of_N (s_slen m))) /\
+  (120 * NS <= Z.abs d ->
+     xl_protocol_sessionStruct_Unmarshal b p0 t0 i0 q0 c0 l0 x0 ((t + d) / NS) = Some (true, p0, t0, i0, q0, c0, l0, x0)).
+Proof. exact xl_session_timestamp_window. Qed.
+Print Assumptions C09_source_session_timestamp_window.
